@@ -26,6 +26,7 @@ func runC12(p *eng.Prog, r *eng.Report, tier string) {
 	c := &cx{p, r, tier}
 	streamInfoResetOnlyOnRestart(c, "C12.18")
 	c12UpdateAddrStores(c, "C12.19")
+	c12FreshRandomness(c, "C12.20")
 	jidEqualRule(c, "C12.8")
 	c12HeaderBufferPerCall(c, "C12.10")
 	c.r.Floor("C12.9", "fmt.Errorf and errors.New calls examined in xmpp, stream, internal/stream, internal/decl", errorsKeepIdentity(c, "C12.9", []string{"", "stream", "internal/stream", "internal/decl"}), 30)
@@ -1055,4 +1056,28 @@ func c12UpdateAddrStores(c *cx, id string) {
 		}
 	}
 	c.r.Floor(id, "returns of UpdateAddr behind the not-ready edge", n, 1)
+}
+
+// c12FreshRandomness (C12.20): stream ids and the resourceparts the receiving
+// side assigns are "fresh random" values: RandomID and RandomLen draw their
+// bytes from crypto/rand.Reader itself, per call. The randomID helper is called
+// with that reader and nothing else (a package-level pool that hands out a
+// block of bytes, refilled "when used up", repeats bytes when a request
+// straddles the end of the block: two binds get the same resource).
+func c12FreshRandomness(c *cx, id string) {
+	n := 0
+	for _, f := range c.allFns() {
+		if !strings.HasPrefix(f.Short, "internal/attr.") {
+			continue
+		}
+		for _, cl := range f.Calls("internal/attr.randomID") {
+			if len(cl.Args) != 2 {
+				continue
+			}
+			n++
+			src := f.Norm(cl.Args[1], nil)
+			c.r.Check(id, f, "source of random identifiers", "K: identifiers are read from crypto/rand.Reader on every call", cl.Pos(), src == "var:crypto/rand.Reader" || src == "crypto/rand.Reader", "the bytes come from "+src)
+		}
+	}
+	c.r.Floor(id, "calls of randomID in internal/attr", n, 2)
 }
